@@ -52,6 +52,8 @@ pub enum Op {
     Join(usize),
     /// Enabled only when no other thread has an enabled operation.
     LowYield,
+    /// About to drop a channel endpoint (only with Session::drop_points).
+    DropEndpoint,
 }
 
 impl Op {
@@ -65,6 +67,7 @@ impl Op {
             Op::Spawn => "Spawn".into(),
             Op::Join(t) => format!("Join(t{})", t),
             Op::LowYield => "LowYield".into(),
+            Op::DropEndpoint => "DropEndpoint".into(),
         }
     }
 }
@@ -159,7 +162,7 @@ impl Exec {
     fn op_enabled(st: &ExecState, op: &Op) -> bool {
         match op {
             Op::Running => false,
-            Op::Start | Op::Spawn | Op::TryRecv(_) => true,
+            Op::Start | Op::Spawn | Op::TryRecv(_) | Op::DropEndpoint => true,
             Op::Send(m) => m.can_send(),
             Op::Recv(m) => m.can_recv(),
             Op::Join(t) => st.threads[*t].finished,
